@@ -39,6 +39,7 @@ func init() {
 		}
 		fs.OptNat("defDepth", 0, false, serverPath)
 		fs.OptNat("defPer", 0, false, serverPath)
+		fs.Tri("islandCacheKeyedByN", Unknown, "")
 		for _, n := range []string{"routeLastWins", "routeLookupByIsland", "routeValidatesRanges"} {
 			fs.Tri(n, Unknown, "sdk/go/hydraidego/client/client.go")
 		}
@@ -62,6 +63,25 @@ func init() {
 		}
 		if sconc != Unknown && vconc != Unknown {
 			fs.Tri("islandHashConcat", TriOf(sconc == Yes && vconc == Yes), srvPath+":"+itoa(vw))
+		}
+		// ---- per-object island cache: `if n.<field> != 0 { return n.<field> }` ignores the argument
+		cacheOf := func(f *File, method, field string) Tri {
+			fd := f.Func("name", method)
+			if fd == nil || fd.Body == nil {
+				return Unknown
+			}
+			for _, st := range fd.Body.List {
+				if is, ok := st.(*ast.IfStmt); ok && strings.Contains(f.Str(is.Cond), "n."+field+" != 0") {
+					if f.Str(is.Cond) == "n."+field+" != 0" && len(is.Body.List) == 1 && f.Str(is.Body.List[0]) == "return n."+field {
+						return No
+					}
+					return Unknown
+				}
+			}
+			return Unknown
+		}
+		if a, b := cacheOf(sdk, "GetIslandID", "IslandNumber"), cacheOf(srv, "GetFolderNumber", "FolderNumber"); a == No && b == No {
+			fs.Tri("islandCacheKeyedByN", No, srvPath)
 		}
 		// ---- hashed path
 		c20Path(fs, srv, srvPath)
